@@ -25,7 +25,7 @@ def _n(t, env, wide):
             return ("wadd", frozenset([_n(t[2][0], env, wide), _n(t[2][1], env, wide)])) if _n(t[2][0], env, wide) != _n(t[2][1], env, wide) else ("wadd2", _n(t[2][0], env, wide))
         if name.startswith("core::num::<impl u8>::wrapping_sub"):
             return ("wsub", _n(t[2][0], env, wide), _n(t[2][1], env, wide))
-        if name in WIDEN_INTO:
+        if name in WIDEN_INTO or name.startswith("std::convert::num::<impl std::convert::From<u") or name.startswith("core::convert::num::<impl std::convert::From<u"):
             return _n(t[2][0], env, wide)
         if name.startswith("core::num::<impl ") and name.split("::")[-1] in ("to_be_bytes", "to_le_bytes", "from_be_bytes", "from_le_bytes"):
             ity = name[len("core::num::<impl "):].split(">")[0]
